@@ -22,7 +22,7 @@ func c02(c *q.Ctx) {
 		c.Guard(f, q.Cond{Canon: "(0 == big.(*Int).Cmp(big.NewInt(0){Add(self,big.NewInt(0){SetBytes(*UtxoItem*Amount*)})},big.NewInt(0)))", Sense: false}, q.ToSuccess(), q.Opt{})
 		c.Guard(f, q.Cond{Canon: "p1.Coinbase", Sense: false}, q.ToSuccess(), q.Opt{})
 		// per-input checks
-		c.MapDedup(f, "utxo.GenUtxoKey(p1.TxInputs[].FromAddr,p1.TxInputs[].RefTxid,p1.TxInputs[].RefOffset)", q.ToSuccess(), "an output cited twice by one transaction is rejected")
+		c.MapDedup(f, "utxo.GenUtxoKey(p1.TxInputs[].FromAddr,p1.TxInputs[].RefTxid,p1.TxInputs[].RefOffset)", q.ToSuccess(), "an output cited twice by one transaction is rejected", "(#i < len(p1.TxInputs))")
 		c.Guard(f, q.Cond{Canon: "bytes.Equal(*UtxoItem*Amount*,p1.TxInputs[].Amount)", Sense: false}, q.ToSuccess(), q.Opt{})
 		c.Guard(f, q.Cond{Canon: "(p0.ledger.meta.TrunkHeight < *FrozenHeight*)", Sense: true}, q.ToSuccess(), q.Opt{})
 		c.Guard(f, q.Cond{Canon: "(-1 == *FrozenHeight*)", Sense: true}, q.ToSuccess(), q.Opt{})
@@ -47,13 +47,11 @@ func c02(c *q.Ctx) {
 	}
 	// the fee output is materialised for, and removed from, the proposer under the same key (a stale cache entry is a spendable phantom)
 	feeInverse(c)
+	feeEveryTx(c)
 	// the rollback of a pending family walks the pool's dependency graph: a consumer that is not linked to its
 	// pending producer stays applied when the producer is undone (its inputs reappear while its outputs remain)
 	poolGraph(c)
-	if uu := c.Fn(st + "(*State).undoUnconfirmedTx"); uu != nil {
-		c.NeverAfter(uu, q.ToCall("State.undoTxInternal"), q.ToCall("State.undoUnconfirmedTx"), "dependants are rolled back before the transaction itself, never after")
-		c.ArgIs(uu, "State.undoUnconfirmedTx", 1, "p2[p3[p1.Txid][]]", 1, "the dependants are the graph's children of this transaction")
-	}
+	poolRollback(c)
 	// K3: who may change the total
 	callers := c.WhoCalls("UtxoVM.UpdateUtxoTotal", map[string]string{
 		st + "(*State).doTxInternal":   "play: + under tx.Coinbase",
